@@ -10,7 +10,7 @@ import os
 import subprocess
 import tempfile
 
-from harness import machine_prop
+from harness import machine_prop, monitors
 from harness.check import VERIF
 from harness.props._machine_common import TRUSTED, ASSUMPTIONS, RULE  # noqa
 
@@ -104,6 +104,11 @@ def differential(ctx, scs, impl):
                     # configuration (known finding D14) -- detected by re-running with that method wrapped
                     if lock_assertion_fires(sc):
                         finding = 'D14'
+                    # ... or the Concurrent[...] specialisation assertion tripped by the leaked CancelScope of
+                    # first()'s internal scope (known finding D11, downstream form): recognised by C03's monitor
+                    elif any(f == 'D11' and 'may only be specialised' in expl for expl, f in
+                             monitors.MONITORS['C03'](sc, tr, info.get('probes', []), info)):
+                        finding = 'D11'
                 ctx.fail({'scenario': sc, 'configuration': name, 'default_trace': tr, 'other_trace': other},
                          'trace under configuration %s differs from the default configuration' % name,
                          finding=finding, family='configs')
